@@ -221,9 +221,9 @@ def leaves_of(n):
 
 
 def same_shape(t1, t2):
-    """Hypothesis of `C11_format_fixed_point_partial` (`equivT`): same productions node by node;
+    """Hypothesis of `C11_format_fixed_point_partial` (`equivC`): same productions node by node;
     at the tokens the same symbol and the same text, except that layout tokens (Indent, Dedent,
-    newline) may carry any text and Documentation tokens may differ in trailing blanks."""
+    newline) may carry any text and Documentation / Comment tokens may differ in trailing blanks."""
     stack = [(t1, t2)]
     while stack:
         a, b = stack.pop()
@@ -235,8 +235,8 @@ def same_shape(t1, t2):
                 return False
             if a.symbol in (NL, "Indent", "Dedent"):
                 continue
-            if a.symbol == "Documentation":
-                if a.text.rstrip() != b.text.rstrip():
+            if a.symbol in ("Documentation", "Comment"):
+                if a.text.rstrip() != b.text.rstrip() or (a.text == "") != (b.text == ""):
                     return False
             elif a.text != b.text:
                 return False
@@ -251,7 +251,7 @@ def relayout(r, text, toks):
     """The same token sequence laid out differently *within* each line: every indentation character
     doubled (prefix relations between indentations, which is all the tokenizer looks at, are kept),
     every non-empty gap between two tokens replaced by a random blank string, blanks appended after
-    a Documentation token.  Line structure (blank lines, comment lines) is untouched, so the parse
+    a Documentation or Comment token.  Line structure (blank lines, comment lines) is untouched, so the parse
     tree is `equivT` to the original one: `C11_format_factors_partial` says the formatted text must
     be the same."""
     lines = text.split("\n")
@@ -275,7 +275,7 @@ def relayout(r, text, toks):
                 new += r.choice([" ", "  ", "   ", " \t", "     "]) if line[prev_end:a] else ""
             new += line[a:b]
             prev_end = b
-        if ts[-1].symbol == "Documentation":
+        if ts[-1].symbol in ("Documentation", "Comment"):
             new += r.choice(["", " ", "    "])
         else:
             new += line[prev_end:]
@@ -308,8 +308,8 @@ def relaid_case(st, r, text, k):
     if not same and len(st.chk.violations) < st.max_viol:
         st.chk.violation("correspondence", {
             "input": text, "relaid_input": text2, "indent_width": k,
-            "theorem_or_correspondence": "C11_format_factors_partial: trees that differ only in layout-token "
-                                         "texts / trailing blanks of documentation are formatted to the same text",
+            "theorem_or_correspondence": "C11_format_factors_partial: trees that differ only in layout-token texts / "
+                                         "trailing blanks of documentation and comments are formatted to the same text",
             "note": "the real formatter's output depends on the layout of the source; the model's provably "
                     "does not (not by itself a violation of the property statement)"}, found_input=False)
 
@@ -317,7 +317,7 @@ def relaid_case(st, r, text, k):
 def fixed_point_hypothesis(st, tree, out):
     """How often idempotence is a consequence of the theorem: the parse tree of the formatted
     text has the shape of the original one (the source already had the formatter's blank-line and
-    comment-line structure and no trailing blanks in comments)."""
+    comment-line structure)."""
     t2, tree2 = parse(out)
     if t2 is None:
         return
@@ -441,7 +441,8 @@ def run_text(st, text, widths, origin, with_ir=True):
     except Exception:  # noqa: BLE001  (already reported by the oracle above)
         pass
     st.productions_used |= used
-    chk.nontrivial("%s|%s" % (origin, hash(tuple(sorted(str(p) for p in used)))))
+    if origin != "relaid":      # a re-laid-out copy has the production set of its source: not a new case
+        chk.nontrivial("%s|%s" % (origin, hash(tuple(sorted(str(p) for p in used)))))
     return True
 
 
@@ -878,12 +879,12 @@ def run(tier):
         chk.extra["table_obligation"] = ans
         if ans == "ok":
             chk.discharged += 1
-            chk.theorems.append({"theorem": "tableTyped formatters ∧ tableMatchesGrammar ∧ tableNormal formatters (compiled checker, op TABLE)",
+            chk.theorems.append({"theorem": "tableTyped ∧ tableMatchesGrammar ∧ tableNormal ∧ tableComment formatters (compiled checker, op TABLE)",
                                  "axioms": ["Lean compiler"]})
         else:
             print("table obligations of C11 no longer hold: %s" % ans[:1500])
             if not search(chk):
-                chk.violation("theorem", {"theorem_or_correspondence": "tableTyped / tableMatchesGrammar / tableNormal: " + ans,
+                chk.violation("theorem", {"theorem_or_correspondence": "tableTyped / tableMatchesGrammar / tableNormal / tableComment: " + ans,
                                           "note": "regenerated production->handler table no longer satisfies the "
                                                   "hypothesis of C11_total / C11_tokens_preserved; search found no "
                                                   "failing input"}, found_input=False)
